@@ -107,6 +107,7 @@ type SolveCfg struct {
 	TimeoutS float64
 	Par      int
 	TwoAgree bool
+	SweepRlimit int
 }
 
 func writeSMT(dir string, idx int, o *Obligation, wantModel bool) string {
@@ -159,6 +160,30 @@ func solveOne(i int, o *Obligation, cfg SolveCfg) {
 		} else {
 			o.Status = "discharged"
 			o.Note = "hypotheses-only query answered " + r.verdict + " (must not be unsat)"
+		}
+		return
+	}
+	if o.Sweep {
+		// deterministic budget: one solver, resource-limited (not time-limited)
+		rl := cfg.SweepRlimit
+		if rl == 0 {
+			rl = 16000000
+		}
+		sp := solverSpec{"z3-new", func(f string, t float64) []string {
+			return []string{"z3-new", fmt.Sprintf("rlimit=%d", rl), fmt.Sprintf("-T:%d", int(t)), f}
+		}}
+		r := runSolver(context.Background(), sp, f, 30)
+		o.TimeS = r.secs
+		o.Solver = "z3-new(rlimit)"
+		switch r.verdict {
+		case "unsat":
+			o.Status = "discharged"
+		case "sat":
+			o.Status = "refuted"
+			o.Model = "sat (the replay step queries the model)"
+		default:
+			o.Status = "unknown"
+			o.Model = r.verdict + ": " + firstLines(r.out, 3)
 		}
 		return
 	}
